@@ -65,6 +65,7 @@ class RuleContext:
         self.extra: dict = {}
         self._seen_keys: set = set()
         self.duplicates = 0
+        self.group_errors: list = []
 
     # -- registration
     def rule(self, rid: str, text: str):
@@ -114,6 +115,22 @@ class RuleContext:
         if found < minimum:
             raise AnalysisError(f"{rule}: found {found} {what}, expected at least {minimum} (anchor vanished or unmodelled)")
 
+    def guard(self, fn, *args, **kwargs):
+        """Run one rule group; an AnalysisError (vanished anchor / unmodelled construct / floor) or a crash inside it
+        becomes an `undecidable` obligation (exit 2 unless a violation is found elsewhere) and the other groups still run."""
+        import traceback
+        try:
+            return fn(*args, **kwargs)
+        except AnalysisError as e:
+            self.group_errors.append(f"{getattr(fn, '__name__', 'rule')}: {e}")
+        except Exception as e:  # noqa: BLE001
+            tb = traceback.format_exc().strip().splitlines()
+            self.group_errors.append(f"{getattr(fn, '__name__', 'rule')}: analyser crashed: {type(e).__name__}: {e} @ "
+                                     f"{tb[-3].strip() if len(tb) >= 3 else ''}")
+            if os.environ.get("SA_DEBUG"):
+                traceback.print_exc()
+        return None
+
     def require(self, cond, msg: str):
         if not cond:
             raise AnalysisError(msg)
@@ -162,6 +179,9 @@ def finish(ctx: RuleContext, t0: float, error: str | None = None, evidence_dir=N
     code = 0
     if new_viol:
         code = 1
+    for ge in ctx.group_errors:
+        lines.append(f"ANALYSIS-ERROR property={prop} {ge}")
+        code = 2 if code == 0 else code
     if error is not None:
         lines.append(f"ANALYSIS-ERROR property={prop} {error}")
         code = 2 if code == 0 else code
@@ -215,8 +235,8 @@ def finish(ctx: RuleContext, t0: float, error: str | None = None, evidence_dir=N
         "wall_s": round(time.time() - t0, 3),
         "violations": len(new_viol),
     }
-    if error is not None:
-        ev["coverage"]["analysis_error"] = error
+    if error is not None or ctx.group_errors:
+        ev["coverage"]["analysis_error"] = "; ".join(([error] if error else []) + ctx.group_errors)
     if write:
         with open(os.path.join(evidence_dir, f"{prop}.json"), "w") as f:
             json.dump(ev, f, indent=1, default=str)
